@@ -36,6 +36,40 @@ fn main() {
         "checked_mul_div_round_up_if" => res(checked_mul_div_round_up_if(u(x[0]), u(x[1]), u(x[2]), b(x[3]))),
         "checked_mul_shift_right_round_up_if" => res(checked_mul_shift_right_round_up_if(u(x[0]), u(x[1]), b(x[2]))),
         "div_round_up_if" => res(div_round_up_if(u(x[0]), u(x[1]), b(x[2]))),
+        "calculate_fees" => {
+            let (pf, g) = whirlpool::manager::swap_manager::verif_calculate_fees(u(x[0]) as u64, u(x[1]) as u16, u(x[2]), u(x[3]) as u64, u(x[4]));
+            format!("Ok {} {}", pf, g)
+        }
+        "calculate_protocol_fee" => format!("Ok {}", whirlpool::manager::swap_manager::verif_calculate_protocol_fee(u(x[0]) as u64, u(x[1]) as u16)),
+        "sqrt_price_from_tick_index" => format!("Ok {}", sqrt_price_from_tick_index(x[0].parse::<i32>().unwrap())),
+        "tick_index_from_sqrt_price" => format!("Ok {}", tick_index_from_sqrt_price(&u(x[0]))),
+        "liquidity_deltas" => {
+            // cur_tick sqrt_price lower upper |delta| positive(0/1) pino(0/1)
+            let cur = x[0].parse::<i32>().unwrap();
+            let lower = x[2].parse::<i32>().unwrap();
+            let upper = x[3].parse::<i32>().unwrap();
+            let mag = u(x[4]);
+            let delta: i128 = if b(x[5]) { mag as i128 } else { (mag as i128).wrapping_neg() };
+            if b(x[6]) {
+                let mut bytes = [0u8; 216];
+                bytes[88..92].copy_from_slice(&lower.to_le_bytes());
+                bytes[92..96].copy_from_slice(&upper.to_le_bytes());
+                let pos = unsafe { &*(bytes.as_ptr() as *const whirlpool::pinocchio::state::whirlpool::MemoryMappedPosition) };
+                match whirlpool::pinocchio::ported::manager_liquidity_manager::pino_calculate_liquidity_token_deltas(cur, u(x[1]), pos, delta) {
+                    Ok((a, b_)) => format!("Ok {} {}", a, b_),
+                    Err(_) => "Err".to_string(),
+                }
+            } else {
+                let mut pos = whirlpool::state::Position::default();
+                pos.tick_lower_index = lower;
+                pos.tick_upper_index = upper;
+                match whirlpool::manager::liquidity_manager::calculate_liquidity_token_deltas(cur, u(x[1]), &pos, delta) {
+                    Ok((a, b_)) => format!("Ok {} {}", a, b_),
+                    Err(_) => "Err".to_string(),
+                }
+            }
+        }
+        "estimate_max_liquidity" => res(estimate_max_liquidity_from_token_amounts(u(x[0]), x[1].parse::<i32>().unwrap(), x[2].parse::<i32>().unwrap(), u(x[3]) as u64, u(x[4]) as u64)),
         _ => "UnknownFunction".to_string(),
     });
     match out { Ok(s) => println!("{}", s), Err(_) => println!("Panic") }
